@@ -1005,6 +1005,7 @@ impl Gen<'_> {
                 let mut op = Op::blank(Kind::Rewrap);
                 let c = self.r.range(CL_RGB, CL_HSL);
                 op.slot = self.src_of_class(c);
+                op.dataseed = self.r.next(); // even: churn same-sized storage afterwards
                 op
             }
             7 => {
